@@ -25,16 +25,6 @@ theorem nodup_ep (l : List Ep) (h1 : (l.filterMap epFork).Nodup) (h2 : (l.filter
       simp only [List.filterMap_cons, epFork, epCell, List.nodup_cons] at h1 h2
       refine List.nodup_cons.mpr ⟨fun hm => h2.1 (List.mem_filterMap.mpr ⟨_, hm, rfl⟩), ih h1 h2.2⟩
 
-theorem nodup_map_of_imp {β γ δ} (f : β → γ) (g : β → δ) (hfg : ∀ x y, g x = g y → f x = f y) :
-    ∀ (l : List β), (l.map f).Nodup → (l.map g).Nodup
-  | [], _ => List.nodup_nil
-  | a :: r, h => by
-    simp only [List.map_cons, List.nodup_cons] at h ⊢
-    refine ⟨?_, nodup_map_of_imp f g hfg r h.2⟩
-    intro hm
-    obtain ⟨y, hy, hgy⟩ := List.mem_map.mp hm
-    exact h.1 (List.mem_map.mpr ⟨y, hy, hfg y a hgy⟩)
-
 /-! ## port bit names -/
 
 theorem mem_portBitNames_of_input (ds : List Decl) (n : String) (h : n ∈ inputNames ds) : n ∈ portBitNames ds := by
